@@ -15,6 +15,7 @@ import VerdeModel.Model.Neighbors
 import VerdeModel.Model.Chain
 import VerdeModel.Model.Surfer
 import VerdeModel.Model.Hull
+import VerdeModel.Model.Lifecycle
 namespace Verde
 open Val
 
@@ -427,9 +428,39 @@ def opsHull (op : String) (a : List Val) : Option Val :=
       pure (toVal (r.map fun (p : List Rat × List Rat) => [p.1, p.2]))
   | _ => none
 
+/-- Life cycle of a concrete step description: parameters = the description itself, fitted = its predictor. -/
+def specClass : EstClass StepSpec (Except Err Predictor) :=
+  plainClass (fun spec r => spec.fitP r) (fun p q => match p with
+    | .ok f => (match f q with | .ok d => d | .error _ => [])
+    | .error _ => [])
+
+def opsLife (op : String) (a : List Val) : Option Val :=
+  match op with
+  | "cfi" => do
+      pure (toVal ((checkFitInput (← argAt (List Shape) a 0) (← argAt (List Shape) a 1) (← argAt (Option (List Shape)) a 2)).map
+        fun _ => "accepted"))
+  | "history" => do
+      -- ops: [ fit coords data weights ] | [ clone ] | [ predict ] ; final prediction at q (or NotFitted)
+      let spec ← parseSpec (← a[0]?)
+      let opsV ← (match a[1]? with | some (Val.list l) => some l | _ => none : Option (List Val))
+      let q ← argAt (List (List Rat)) a 2
+      let ops ← opsV.mapM fun v => match v with
+        | .list [.atom "clone"] => some (LifeOp.clone : LifeOp StepSpec)
+        | .list [.atom "predict"] => some (LifeOp.predict q)
+        | .list [.atom "set_params"] => some (LifeOp.setParams spec)
+        | .list (.atom "fit" :: rest) => (rowsAt rest 0).map LifeOp.fit
+        | _ => none
+      let s := lifeRun specClass ⟨spec, none⟩ ops
+      let r : Except Err Data := match s.fitted with
+        | none => Except.error Err.notFitted
+        | some (Except.error e) => Except.error e
+        | some (Except.ok f) => f q
+      pure (toVal r)
+  | _ => none
+
 def dispatchers : List (String → List Val → Option Val) :=
   [opsCoords, opsBlocks, opsWindows, opsGrid, opsCV, opsScore, opsGridder, opsLinAlg, opsKernels, opsNeighbors, opsChain,
-   opsSurfer, opsHull]
+   opsSurfer, opsHull, opsLife]
 
 def runLine (line : String) : String :=
   match Val.parseLine line with
